@@ -46,3 +46,51 @@ pub open spec fn trg_fields(p: TrgV3Packet, s: Seq<u8>) -> bool {
 pub open spec fn trg_ordered(p: TrgV3Packet) -> bool {
     p.output_counter <= p.scaledown_counter <= p.drift_veto_counter <= p.input_counter
 }
+
+// ---- re-encoding (C06): the accessor values of an accepted packet reproduce its 80 bytes exactly
+pub open spec fn w32(v: u32) -> Seq<u8> { vstd::bytes::spec_u32_to_le_bytes(v) }
+pub open spec fn encode_trg(p: TrgV3Packet) -> Seq<u8> {
+    w32(p.udp_counter) + w32(0x8000_0000u32 | (p.output_counter & 0x0FFF_FFFF)) + w32(p.timestamp) + w32(p.output_counter) + w32(p.input_counter)
+        + w32(p.pulser_counter) + w32(p.trigger_bitmap) + w32(p.nim_bitmap) + w32(p.esata_bitmap)
+        + w32((if p.satisfied_mlu { 0x8000_0000u32 } else { 0u32 }) | p.aw16_prompt as u32)
+        + w32(p.drift_veto_counter) + w32(p.scaledown_counter) + seq![0u8, 0u8, 0u8, 0u8]
+        + w32((p.aw16_multiplicity as u32) << 16 | p.aw16_bus as u32) + vstd::bytes::spec_u64_to_le_bytes(p.bsc64_bus)
+        + w32(p.bsc64_multiplicity as u32) + w32(p.coincidence_latch as u32) + w32(p.firmware_revision)
+        + w32(0xE000_0000u32 | (p.output_counter & 0x0FFF_FFFF))
+}
+proof fn lemma_word(s: Seq<u8>, o: int, v: u32)
+    requires 0 <= o, o + 4 <= s.len(), v == le32(s, o)
+    ensures w32(v) == s.subrange(o, o + 4)
+{
+    vstd::bytes::lemma_auto_spec_u32_to_from_le_bytes();
+    assert(s.subrange(o, o + 4).len() == 4);
+}
+pub proof fn lemma_trg_reencode(p: TrgV3Packet, s: Seq<u8>)
+    requires trg_ok(s), trg_fields(p, s)
+    ensures encode_trg(p) == s
+{
+    vstd::bytes::lemma_auto_spec_u64_to_from_le_bytes();
+    let (h, out, f) = (le32(s, 4), le32(s, 12), le32(s, 76));
+    assert(h & 0xF000_0000 == 0x8000_0000 && h & 0x0FFF_FFFF == out & 0x0FFF_FFFF ==> h == 0x8000_0000u32 | (out & 0x0FFF_FFFF)) by (bit_vector);
+    assert(f & 0xF000_0000 == 0xE000_0000 && f & 0x0FFF_FFFF == out & 0x0FFF_FFFF ==> f == 0xE000_0000u32 | (out & 0x0FFF_FFFF)) by (bit_vector);
+    let w9 = le32(s, 36);
+    assert(w9 & 0x7FFF_0000 == 0 ==> w9 == (if w9 & 0x8000_0000 != 0 { 0x8000_0000u32 } else { 0u32 }) | (w9 & 0xFFFF)) by (bit_vector);
+    let w13 = le32(s, 52);
+    assert(w13 & 0xFF00_0000 == 0 ==> w13 == ((w13 >> 16) << 16) | (w13 & 0xFFFF)) by (bit_vector);
+    let (a, b) = (p.aw16_multiplicity as u32, p.aw16_bus as u32);
+    assert(a == w13 >> 16 && b == w13 & 0xFFFF);
+    let (w16, w17) = (le32(s, 64), le32(s, 68));
+    assert(w16 & 0xFFFF_FF00 == 0 ==> w16 == w16 & 0xFF) by (bit_vector);
+    assert(w17 & 0xFFFF_FF00 == 0 ==> w17 == w17 & 0xFF) by (bit_vector);
+    lemma_word(s, 0, p.udp_counter); lemma_word(s, 4, h); lemma_word(s, 8, p.timestamp); lemma_word(s, 12, out);
+    lemma_word(s, 16, p.input_counter); lemma_word(s, 20, p.pulser_counter); lemma_word(s, 24, p.trigger_bitmap);
+    lemma_word(s, 28, p.nim_bitmap); lemma_word(s, 32, p.esata_bitmap); lemma_word(s, 36, w9); lemma_word(s, 40, p.drift_veto_counter);
+    lemma_word(s, 44, p.scaledown_counter); lemma_word(s, 52, w13); lemma_word(s, 64, w16); lemma_word(s, 68, w17);
+    lemma_word(s, 72, p.firmware_revision); lemma_word(s, 76, f);
+    assert(s.subrange(56, 64).len() == 8);
+    assert(vstd::bytes::spec_u64_to_le_bytes(p.bsc64_bus) == s.subrange(56, 64));
+    assert(encode_trg(p) =~= s.subrange(0, 4) + s.subrange(4, 8) + s.subrange(8, 12) + s.subrange(12, 16) + s.subrange(16, 20) + s.subrange(20, 24)
+        + s.subrange(24, 28) + s.subrange(28, 32) + s.subrange(32, 36) + s.subrange(36, 40) + s.subrange(40, 44) + s.subrange(44, 48) + s.subrange(48, 52)
+        + s.subrange(52, 56) + s.subrange(56, 64) + s.subrange(64, 68) + s.subrange(68, 72) + s.subrange(72, 76) + s.subrange(76, 80));
+    assert(encode_trg(p) =~= s);
+}
